@@ -331,9 +331,16 @@ def run_edit(case) -> CaseResult:
     kex = case['kex']
     e = case['edit']
     log: List[Any] = []
-    pair = Pair({'kex_algs': [kex], 'server_host_keys': host_key_for(kex, case.get('hostkey', 'default')),
+    # what the client is after: a usable connection, or (the entry point
+    # asyncssh.get_server_host_key) the server's host key - handed out as
+    # soon as the key exchange is complete, so "complete" must mean that
+    # the host key's signature over the exchange hash was checked
+    entry = case.get('entry', 'connect')
+    skeys = host_key_for(kex, case.get('hostkey', 'default'))
+    pair = Pair({'kex_algs': [kex], 'server_host_keys': skeys,
                  'server_factory': make_server(log)},
-                {'kex_algs': [kex], 'client_factory': lambda: LogClient(log)})
+                {'kex_algs': [kex], 'client_factory': lambda: LogClient(log)},
+                wait='kex' if entry == 'hostkey' else 'auth')
     h = pair.h
     editor = Editor(e) if e is not None else None
 
@@ -359,13 +366,33 @@ def run_edit(case) -> CaseResult:
                 raise Violation('session-id', 'session ids differ after a '
                                 'completed handshake', 'session-id')
 
-            return CaseResult(['control', 'kex:' + kex], True, ['control',
-                                                                 kex])
+            if entry == 'hostkey':
+                got = pair.c.get_server_host_key()
+                want = {k.public_data for k in
+                        asyncssh.load_keypairs(skeys)}
+
+                if got is None or got.public_data not in want:
+                    raise Violation('control', 'host key reported for an '
+                                    'unedited %s handshake: %r' % (kex, got),
+                                    'control-hostkey')
+
+            return CaseResult(['control', 'kex:' + kex, 'entry:' + entry],
+                              True, ['control', kex, entry])
 
         if not editor.applied or not editor.changed:
             return CaseResult(['not-applied'], False)
 
         events = [x[0] for x in log]
+
+        if completed and entry == 'hostkey':
+            raise Violation(
+                'edited-handshake-completed',
+                '%s: edit %s on %s (%s): the key exchange was reported as '
+                'complete and a server host key handed out (%r)' %
+                (kex, editor.applied, e['target'], e['dir'],
+                 pair.c.get_server_host_key()),
+                'hostkey-reported:%s:%s' % (e['target'],
+                                            editor.applied.split(':')[0]))
 
         if completed or 'c.auth_completed' in events or \
                 's.auth_completed' in events:
@@ -417,11 +444,12 @@ def run_edit(case) -> CaseResult:
                   'edit:' + (editor.applied if e['target'] == 'version' else
                              e['target'] + ':' +
                              editor.applied.split(':')[0]),
-                  fam + '/' + e['target']]
+                  fam + '/' + e['target'], 'entry:' + entry,
+                  'entry:%s/%s' % (entry, fam)]
         if 'reencode-key' in editor.applied:
             labels.append('edit:reencode-key:' + fam)
         return CaseResult(labels, True, [kex, e['target'], e['dir'],
-                                         editor.applied])
+                                         editor.applied, entry])
     finally:
         pair.close()
 
@@ -454,12 +482,15 @@ def edit_strategy(tier: str):
         'bit': st.integers(0, 7)})
     return st.fixed_dictionaries({'kex': pick(methods),
                                   'hostkey': pick(['default', 'rsa']),
+                                  'entry': pick(['connect', 'connect',
+                                                 'hostkey']),
                                   'edit': edit})
 
 
 def control_cases(tier: str):
     for kex in kex_methods():
         yield {'kex': kex, 'edit': None}
+        yield {'kex': kex, 'edit': None, 'entry': 'hostkey'}
 
 
 # --------------------------------------------------------------- prefs ----
@@ -860,7 +891,11 @@ FAMILIES = [
                              'target:kexmsg', 'dir:cs', 'dir:sc',
                              'edit:version:trailing-space',
                              'edit:version:char', 'edit:reencode-key:rsa',
-                             'edit:reencode-key:dh-group'] +
+                             'edit:reencode-key:dh-group',
+                             'entry:connect', 'entry:hostkey'] +
+                     ['entry:hostkey/' + f for f in (
+                         'pq-hybrid', 'curve25519', 'curve448', 'ecdh-nist',
+                         'gex', 'rsa', 'dh-group')] +
                      [f + '/' + t for f in ('pq-hybrid', 'curve25519',
                                             'curve448', 'ecdh-nist', 'gex',
                                             'rsa', 'dh-group')
